@@ -16,6 +16,7 @@ var registry = map[string]core.Harness{
 	"C33": HIST{},
 	"C47": UND{},
 	"C08": GCX{},
+	"C35": REM{},
 }
 
 func TestSim(t *testing.T) { core.WorkerMain(t, registry) }
